@@ -145,6 +145,9 @@ def monotonic_factorization(arr: ArrayType1D) -> Tuple[int, np.ndarray, pd.Index
         arr, pd_type = _convert_timestamp_to_tz_unaware(arr)
 
     arr_list = _val_to_numpy(arr, as_list=True)
+    if arr_list[0].dtype.kind == "O":
+        # object arrays (strings) cannot be scanned by the compiled kernel: no prefix
+        return 0, np.empty(0, dtype=np.uint32), pd.Index([], dtype=arr_list[0].dtype)
 
     total_len = len(arr)
     cutoff, codes, labels = _monotonic_factorization(arr_list, total_len)
